@@ -192,10 +192,53 @@ def rule_r4(ctx) -> RuleResult:
         rr.bad(Finding("C08.R4", LX, MF + ".expandTemplate", unparse(exp[0]) if exp else "expand_all_templates(...)",
                        "the argument vector is not handed to the expander as a saved call: re-serialising it as `{{title|a|b}}` text lets a "
                        "`|` or `=` inside a value split it or turn it into a named argument", et.lineno))
-    if "new_args = [title]" in unparse(et) and "'{}={}'.format(k, v)" in unparse(et):
+    # the vector handed to _save_value: the title first, then one `key=value` text per entry of the args table
+    from ..core import strtpl
+    vec = saves[0].value.args[1] if saves and len(saves[0].value.args) > 1 else None
+    producers = []   # element expressions that follow the title
+    head = None
+    if isinstance(vec, ast.Name):
+        for n in walk_no_nested(et):
+            if isinstance(n, ast.Assign) and len(n.targets) == 1 and isinstance(n.targets[0], ast.Name) and n.targets[0].id == vec.id:
+                v = n.value
+                parts = []
+                while isinstance(v, ast.BinOp) and isinstance(v.op, ast.Add):
+                    parts.insert(0, v.right)
+                    v = v.left
+                parts.insert(0, v)
+                for i, part in enumerate(parts):
+                    if isinstance(part, ast.List):
+                        for j, el in enumerate(part.elts):
+                            if i == 0 and j == 0:
+                                head = el
+                            elif isinstance(el, ast.Starred) and isinstance(el.value, (ast.GeneratorExp, ast.ListComp)):
+                                producers.append(el.value.elt)
+                            else:
+                                producers.append(el)
+                    elif isinstance(part, (ast.ListComp, ast.GeneratorExp)):
+                        producers.append(part.elt)
+                    elif isinstance(part, ast.Call) and unparse(part.func) == "list" and part.args and isinstance(part.args[0], (ast.GeneratorExp, ast.ListComp)):
+                        producers.append(part.args[0].elt)
+            if isinstance(n, ast.Call) and isinstance(n.func, ast.Attribute) and isinstance(n.func.value, ast.Name) and n.func.value.id == vec.id and n.args:
+                if n.func.attr == "append":
+                    producers.append(n.args[0])
+                elif n.func.attr == "extend" and isinstance(n.args[0], (ast.GeneratorExp, ast.ListComp)):
+                    producers.append(n.args[0].elt)
+    if (head is None or not producers) and rr.findings:
+        return rr   # the vector is not saved as a call at all (reported above)
+    if head is None or not producers:
+        raise AnalysisError("expandTemplate: how the argument vector `{}` is built was not recognised".format(unparse(vec) if vec is not None else "?"))
+    bad_p = []
+    for pr in producers:
+        tpl = strtpl.template(pr)
+        shape = [x if isinstance(x, str) else "{}" for x in tpl]
+        if shape != ["{}", "=", "{}"]:
+            bad_p.append(pr)
+    if unparse(head) == "title" and not bad_p:
         rr.ok(MF + ".expandTemplate", "args become title, then k=v entries")
     else:
-        rr.bad(Finding("C08.R4", LX, MF + ".expandTemplate", "new_args", "argument vector is not [title, 'k=v', ...]", et.lineno))
+        rr.bad(Finding("C08.R4", LX, MF + ".expandTemplate", unparse(bad_p[0])[:60] if bad_p else unparse(head),
+                       "argument vector is not [title, 'k=v', ...]", (bad_p[0] if bad_p else head).lineno))
     cp = ctx.fn(MF + ".callParserFunction")
     src = unparse(cp)
     if "ctx._canonicalize_parserfn_name(name)" in src and "call_parser_function(ctx, name, new_args, lambda x: x)" in src and "name not in PARSER_FUNCTIONS" in src:
